@@ -1,9 +1,12 @@
 package main
 
 import (
+	"fmt"
 	"go/ast"
+	"go/parser"
 	"go/token"
 	"os"
+	"os/exec"
 	"path/filepath"
 	"sort"
 	"strconv"
@@ -164,4 +167,133 @@ func extractC04(c *Ctx) {
 	c.Add("c04ResolverAssignments", "List String", LeanStrList(assigns), "reflection/ bridgedesc/", "assignments to .FileResolver / .TypeResolver outside the Target literal")
 	c.Add("c04ParseTypeDecls", "List String", LeanStrList(typeDecls), "reflection/parse.go", "types declared in reflection/parse.go")
 	c.Add("c04GlobalRegistryRefs", "List String", LeanStrList(globals), "reflection/ bridgedesc/ transcoding/ internal/gwquery/", "mentions of protoregistry.GlobalTypes / GlobalFiles in production files")
+}
+
+func init() { register("c04text", extractC04Text) }
+
+// Facts for the Duration text form (round 5):
+//   - c04DurationCalls: the call expressions of the `case "google.protobuf.Duration"` clause of gwquery.parseMessage, in
+//     source order (time.ParseDuration(value), durationpb.New(d), the error return's protoreflect.Value{});
+//   - c04TimeUnitMap: `unitMap` of the Go standard library's time package (the GOROOT the harness is built with):
+//     (UTF-8 bytes of the unit, nanoseconds), constants resolved from time/time.go, sorted by unit bytes.
+func extractC04Text(c *Ctx) {
+	var calls []string
+	src := ""
+	if fd := c.FuncDecl("internal/gwquery/query.go", "", "parseMessage"); fd != nil {
+		ast.Inspect(fd, func(n ast.Node) bool {
+			cc, ok := n.(*ast.CaseClause)
+			if !ok {
+				return true
+			}
+			for _, e := range cc.List {
+				if lit, ok := e.(*ast.BasicLit); ok && lit.Value == `"google.protobuf.Duration"` {
+					src = c.Pos(cc)
+					for _, st := range cc.Body {
+						ast.Inspect(st, func(m ast.Node) bool {
+							if ce, ok := m.(*ast.CallExpr); ok {
+								calls = append(calls, c.Src(ce))
+							}
+							return true
+						})
+					}
+				}
+			}
+			return true
+		})
+	}
+	c.Add("c04DurationCalls", "List String", LeanStrList(calls), src, "calls in the Duration case of gwquery.parseMessage")
+
+	goroot := os.Getenv("GOROOT")
+	if goroot == "" {
+		if out, err := exec.Command("go", "env", "GOROOT").Output(); err == nil {
+			goroot = strings.TrimSpace(string(out))
+		}
+	}
+	consts := map[string]ast.Expr{}
+	var unitEntries [][2]ast.Expr
+	fset := token.NewFileSet()
+	for _, name := range []string{"time.go", "format.go"} {
+		f, err := parser.ParseFile(fset, filepath.Join(goroot, "src", "time", name), nil, 0)
+		if err != nil {
+			continue
+		}
+		for _, d := range f.Decls {
+			gd, ok := d.(*ast.GenDecl)
+			if !ok {
+				continue
+			}
+			for _, sp := range gd.Specs {
+				vs, ok := sp.(*ast.ValueSpec)
+				if !ok {
+					continue
+				}
+				for i, n := range vs.Names {
+					if i < len(vs.Values) {
+						if gd.Tok == token.CONST {
+							consts[n.Name] = vs.Values[i]
+						}
+						if gd.Tok == token.VAR && n.Name == "unitMap" {
+							if cl, ok := vs.Values[i].(*ast.CompositeLit); ok {
+								for _, el := range cl.Elts {
+									if kv, ok := el.(*ast.KeyValueExpr); ok {
+										unitEntries = append(unitEntries, [2]ast.Expr{kv.Key, kv.Value})
+									}
+								}
+							}
+						}
+					}
+				}
+			}
+		}
+	}
+	var eval func(e ast.Expr, depth int) (uint64, bool)
+	eval = func(e ast.Expr, depth int) (uint64, bool) {
+		if depth > 20 {
+			return 0, false
+		}
+		switch x := e.(type) {
+		case *ast.BasicLit:
+			v, err := strconv.ParseUint(x.Value, 0, 64)
+			return v, err == nil
+		case *ast.Ident:
+			if d, ok := consts[x.Name]; ok {
+				return eval(d, depth+1)
+			}
+		case *ast.ParenExpr:
+			return eval(x.X, depth+1)
+		case *ast.CallExpr: // uint64(Nanosecond)
+			if len(x.Args) == 1 {
+				return eval(x.Args[0], depth+1)
+			}
+		case *ast.BinaryExpr:
+			a, ok1 := eval(x.X, depth+1)
+			b, ok2 := eval(x.Y, depth+1)
+			if ok1 && ok2 && x.Op == token.MUL {
+				return a * b, true
+			}
+		}
+		return 0, false
+	}
+	var rows []string
+	for _, kv := range unitEntries {
+		lit, ok := kv[0].(*ast.BasicLit)
+		if !ok {
+			continue
+		}
+		key, err := strconv.Unquote(lit.Value)
+		if err != nil {
+			continue
+		}
+		v, ok := eval(kv[1], 0)
+		if !ok {
+			v = 0
+		}
+		var bs []string
+		for _, b := range []byte(key) {
+			bs = append(bs, strconv.Itoa(int(b)))
+		}
+		rows = append(rows, fmt.Sprintf("([%s], %d)", strings.Join(bs, ", "), v))
+	}
+	sort.Strings(rows)
+	c.Add("c04TimeUnitMap", "List (List Nat × Nat)", "["+strings.Join(rows, ", ")+"]", "GOROOT/src/time/format.go", "unitMap of package time (unit bytes, nanoseconds)")
 }
